@@ -497,10 +497,67 @@ def _record_layout(ctx, rule):
     return c07.r3_record_layout(ctx, rule, scope='pcfg')
 
 
+FILTERS = ('edit_length', 'edit_terminal_set', 'check_regex')
+
+
+def r9_filter_chain(ctx, rule):
+    """With several filter options the structures kept are those passing ALL of them: in edit_rules every filter reads the text the
+    previous step left and writes its result back to the same variable, that variable starts as the text read from grammar.txt
+    and is what is written back.  (Seed C20-i sent every result to a new variable `edited` while every filter still read the
+    unfiltered `grammar`: only the last requested filter took effect.)"""
+    q = ER + 'edit_rules'
+    fn = ctx.fn(q)
+    stores = stores_in(fn)
+    steps = []
+    for st in walk_stmts(fn.body):
+        if isinstance(st, ast.Assign) and isinstance(st.value, ast.Call) and call_name(st.value) in FILTERS:
+            steps.append(st)
+    if not ctx.floor(rule, q, len(steps), 3, 'filter applications in edit_rules'):
+        return
+    # the variable holding the text read from the file (possibly copied once: edited = grammar)
+    read = [nm for nm, l_ in stores.items() if any(v is not None and '.read()' in U(v) for s_, v in l_)]
+    if len(read) != 1:
+        ctx.unk(rule, q, 'the variable holding the text of grammar.txt is not recognised: %s' % read)
+        return
+    holders = {read[0]}
+    for nm, l_ in stores.items():
+        firsts = sorted(((s_.lineno, v) for s_, v in l_ if v is not None), key=lambda t: t[0])
+        if firsts and isinstance(firsts[0][1], ast.Name) and firsts[0][1].id == read[0] and firsts[0][0] < steps[0].lineno:
+            holders.add(nm)
+    bad = False
+    cur = None
+    for st in steps:
+        tgt = st.targets[0]
+        a0 = st.value.args[0] if st.value.args else None
+        if not (isinstance(tgt, ast.Name) and isinstance(a0, ast.Name) and len(st.targets) == 1):
+            ctx.unk(rule, q, 'filter application not understood: %s' % U(st)[:80])
+            return
+        if tgt.id != a0.id or a0.id not in holders or (cur is not None and a0.id != cur):
+            bad = True
+            ctx.bad(rule, q, 'filter reads %s, result goes to %s: %s' % (a0.id, tgt.id, U(st)[:60]),
+                    'every filter must work on what the filters before it left and hand its result to the next one; otherwise the '
+                    'structures removed by an earlier option are back in the text the later option writes (or the later result is '
+                    'lost), and the file keeps structures that fail a requested filter', None, st)
+        cur = tgt.id
+    # what is written back
+    written = [U(c.args[0]) for c in calls_in(fn) if isinstance(c.func, ast.Attribute) and c.func.attr in ('write', 'writelines') and c.args]
+    wloops = [lp for lp in walk_local(fn) if isinstance(lp, ast.For) and isinstance(lp.target, ast.Name)
+              and any(w == lp.target.id for w in written)]
+    src = [U(lp.iter) for lp in wloops] + [w for w in written if not any(w == lp.target.id for lp in wloops)]
+    if cur is not None and src and any(s_ != cur for s_ in src):
+        bad = True
+        ctx.bad(rule, q, 'written back: %s, filtered text is in %s' % (src, cur), 'the file must receive the result of the last filter', None, fn)
+    elif not src:
+        ctx.unk(rule, q, 'write-back not recognised')
+        return
+    if not bad:
+        ctx.ok(rule, q, 'the %d filters are chained through %s, which is read from and written back to grammar.txt' % (len(steps), cur))
+
+
 def rules(tier):
     return [('C20.R1', r1_effect_set), ('C20.R2', r2_tokeniser), ('C20.R3', r3_label_lengths), ('C20.R4', r4_reemission),
             ('C20.R5', r5_filter_kernels), ('C20.R6', r6_option_plumbing),
-            ('C20.R7', _supported_only), ('C20.R8', _record_layout)]
+            ('C20.R7', _supported_only), ('C20.R8', _record_layout), ('C20.R9', r9_filter_chain)]
 
 
 META = {
